@@ -12,6 +12,7 @@ from typing import Dict, List, Optional, Set, Tuple
 from ..absint import Client, Ctx, Interp
 from ..model import AnalysisError, Cls, Func, Program, walk_own
 from ..resolve import Scope, dotted
+from ..util import assigned_value
 
 FILES_MOD = "windpyutils.files"
 
@@ -147,8 +148,7 @@ class _ConstField(Client):
 
     def event(self, kind, node, state, ctx: Ctx):
         if kind == "store" and isinstance(node, ast.Attribute) and node.attr == self.fld and ctx.scope.is_self(node.value):
-            st = getattr(node, "_parent", None)
-            v = st.value if isinstance(st, ast.Assign) else None
+            v = assigned_value(node)
             val = v.value if isinstance(v, ast.Constant) else "?"
             return [(val,)]
         return (state,)
